@@ -36,10 +36,23 @@ def mutant_table():
         rows.append(f"| {k} | {suite} | {status} ({v.get('seconds','-')} s) | {rep} |")
     return "\n".join(rows)
 
+def budgets_table():
+    rows = ["| property | generator (quick tier, primary profile) | cases | complete |", "|---|---|---|---|"]
+    for f in sorted(glob.glob(os.path.join(ROOT, "evidence/C*.json"))):
+        e = json.load(open(f))
+        pid = e["property_id"]
+        for g in e["coverage"].get("generators", []):
+            if g.get("profile") == "unchecked" or "@" in g.get("name", ""):
+                continue
+            comp = {True: "yes", False: "no", None: "–"}[g.get("complete")]
+            rows.append(f"| {pid} | {g['name']} | {g.get('cases', 0):,} | {comp} |")
+        rows.append(f"| {pid} | *total incl. second profile: {e['coverage']['evaluations']:,} evaluations, {e['coverage']['distinct_nontrivial']:,} distinct non-trivial, {e['wall_s']} s* | | |")
+    return "\n".join(rows)
+
 def main():
     p = os.path.join(ROOT, "DESIGN.md")
     s = open(p).read()
-    for key, fn in (("SEEDED", seeded_table), ("MUTANTS", mutant_table)):
+    for key, fn in (("SEEDED", seeded_table), ("MUTANTS", mutant_table), ("BUDGETS", budgets_table)):
         a, b = f"<!-- BEGIN {key} -->", f"<!-- END {key} -->"
         if a in s and b in s:
             s = s[: s.index(a) + len(a)] + "\n" + fn() + "\n" + s[s.index(b):]
